@@ -42,6 +42,10 @@ var tokenViewProps = map[string]bool{"C01": true, "C02": true, "C04": true}
 // (key, message, signature) table, which makes the model rebuild the exact signed message
 var tokenViewFullEvery = 8
 
+// bounds for the large tiers
+var tokenViewMaxWorlds = 6400
+var tokenViewPerFile = 64
+
 func tokenViewEnabled() bool {
 	if len(os.Args) < 3 || os.Args[1] != "gen" {
 		return false
@@ -318,8 +322,24 @@ func flushTokenViews(dir, prefix string, shards int) error {
 	}
 	queue := tvQueue
 	tvQueue, tvSeen = nil, map[*World]bool{}
+	// large tiers: an evenly spaced sample of at most tokenViewMaxWorlds worlds, at most tokenViewPerFile worlds per
+	// case file (the per-file DID table and the number of constants stay bounded, so the cost is linear)
+	if n := len(queue); n > tokenViewMaxWorlds {
+		stride := (n + tokenViewMaxWorlds - 1) / tokenViewMaxWorlds
+		var sampled []*tvSnap
+		for i := 0; i < n; i += stride {
+			sampled = append(sampled, queue[i])
+		}
+		queue = sampled
+		for i, sn := range queue {
+			sn.full = tokenViewFullEvery > 0 && i%tokenViewFullEvery == 0
+		}
+	}
 	if shards < 1 {
 		shards = 1
+	}
+	if need := (len(queue) + tokenViewPerFile - 1) / tokenViewPerFile; need > shards {
+		shards = need
 	}
 	tag := strings.TrimPrefix(prefix, "cases_")
 	results := make([]*tvResult, len(queue))
